@@ -286,8 +286,8 @@ def run_history_in(zcls, rel, origin, txns):
                 qs = [query(v, q) for q in queries]
             # copy-on-write: versions committed earlier still read as they did
             for ov, od in older[-2:]:
-                if ov is not v and dump_version(ov) != od:
-                    raise HarnessCheck(E_STALE, "an older version changed")
+                if (d if ov is v else dump_version(ov)) != od:
+                    raise HarnessCheck(E_STALE, "a committed version changed after it was published")
             if not older or older[-1][0] is not v:
                 older.append((v, d))
         except HarnessCheck as e:
@@ -780,7 +780,7 @@ def cases(ctx):
         txns[-1][1] = 1
         txns[-1][3] = [user_form(rng, rel, origin, q, 0.05) for q in all_queries(ALPHA, ctx.n(3, 3))]
         yield "bounds-all", c
-    for _ in range(ctx.n(60, 1200)):
+    for _ in range(ctx.n(90, 1200)):
         c = gen_deep(ctx, rng)
         yield "deep", (with_class(c, rng.choice([3, 4])) if rng.random() < 0.3 else c)
     for i in range(ctx.n(2, 36)):
